@@ -18,7 +18,7 @@ func init() {
 }
 
 func runC11(p *core.Prog, r *core.Report) {
-	r.Explain = "Decides the absence of integer wrap-around and of unchecked narrowing in the range arithmetic (a wrapped offset or length makes 'out-of-range exactly when unsatisfiable' false and truncates or shifts the returned bytes): (R1) in the tabled range functions every subtraction a-b of range quantities is dominated by facts that imply b <= a (difference-bound reasoning over the branch conditions on the dominator chain, min/max and x-const definitions; no solver); (R2) every conversion of an offset/length to a signed type in those functions is dominated by checkTooBigRange()==nil on those operands or is bounded by a buffer length; (R3) PayloadRange.Resolve's mode switch handles every declared mode and rejects unknown ones, and its final bounds test dominates every successful return; (R4) the request-level range check rejects offset+length overflow with the `x+y <= x` idiom before the range is used. Not covered: that the returned bytes are the right ones (value-level), behaviour of the streams' Read implementations."
+	r.Explain = "Decides the absence of integer wrap-around and of unchecked narrowing in the range arithmetic (a wrapped offset or length makes 'out-of-range exactly when unsatisfiable' false and truncates or shifts the returned bytes): (R1) in the tabled range functions every subtraction a-b of range quantities is dominated by facts that imply b <= a (difference-bound reasoning over the branch conditions on the dominator chain, min/max and x-const definitions; no solver); (R2) every conversion of an offset/length to a signed type in those functions is dominated by checkTooBigRange()==nil on those operands or is bounded by a buffer length; (R3) PayloadRange.Resolve's mode switch handles every declared mode and rejects unknown ones, and its final bounds test dominates every successful return; (R4) the request-level range check rejects offset+length overflow with the `x+y <= x` idiom before the range is used. (R6) the stream that readHeader cuts out of a combined file for the matched entry is always length-limited. Not covered: that the returned bytes are the right ones (value-level), behaviour of the streams' Read implementations."
 	table := []string{
 		"(pkg/local_object_storage/blobstor/common.PayloadRange).Resolve",
 		fst + "shiftPayloadRangeStream",
@@ -282,6 +282,54 @@ func runC11(p *core.Prog, r *core.Report) {
 	if n4 < 2 {
 		r.Fatalf("C11.R4: %d overflow idioms found in pkg/services/object, expected 2", n4)
 	}
+	// ---------------- R6 a stream cut out of a combined file never runs into the next entry
+	r6 := r.Rule("C11.R6", "readHeader: the stream returned for an entry found in a combined file is always the length-limited reader, never the bare file (which continues with other objects)", 1)
+	if rh := p.Func("(*pkg/local_object_storage/blobstor/fstree.FSTree).readHeader"); rh == nil {
+		r.Fatalf("C11.R6: readHeader not found")
+	} else {
+		n := 0
+		for _, cs := range core.CallSites([]*ssa.Function{rh}, func(s core.Site) bool { return s.Name == "bytes.Equal" }) {
+			c, ok := cs.Call.(*ssa.Call)
+			if !ok {
+				continue
+			}
+			for _, b := range rh.Blocks {
+				ret, isRet := b.Instrs[len(b.Instrs)-1].(*ssa.Return)
+				if !isRet || len(ret.Results) != 3 || !branchDominates(c, true, b) {
+					continue
+				}
+				if k, isK := ret.Results[2].(*ssa.Const); !isK || !k.IsNil() {
+					continue
+				}
+				n++
+				var limited func(v ssa.Value, d int) bool
+				limited = func(v ssa.Value, d int) bool {
+					switch x := v.(type) {
+					case *ssa.MakeInterface:
+						return strings.HasSuffix(x.X.Type().String(), "fstree.limitedFileReader")
+					case *ssa.ChangeInterface:
+						return d > 0 && limited(x.X, d-1)
+					case *ssa.Phi:
+						if d == 0 {
+							return false
+						}
+						for _, e := range x.Edges {
+							if !limited(e, d-1) {
+								return false
+							}
+						}
+						return true
+					}
+					return false
+				}
+				r6.Check(limited(ret.Results[1], 4), core.FuncName(rh)+"#matched-entry-stream!limited", p.InstrPos(ret), "the returned stream is the length-limited reader on every path", "for an entry found in a combined file readHeader can return the bare file as the stream: when the entry is buffered completely but not recognisably short (exactly the window size) the reader runs on into the following objects' bytes")
+			}
+		}
+		if n == 0 {
+			r.Fatalf("C11.R6: no success return for a matched combined entry found in readHeader")
+		}
+	}
+
 }
 
 func isInt(t types.Type) bool {
